@@ -753,6 +753,14 @@ func (w *World) binop(st *State, op token.Token, x, y *Val, xt types.Type) Term 
 		return and(a, b)
 	case token.LOR:
 		return or(a, b)
+	case token.AND, token.OR, token.XOR, token.SHL, token.SHR, token.AND_NOT:
+		if a.Sort == SInt && b.Sort == SInt {
+			// bit operations are uninterpreted functions of their operands (sound: nothing is known about the value)
+			name := map[token.Token]string{token.AND: "bit!and", token.OR: "bit!or", token.XOR: "bit!xor", token.SHL: "bit!shl", token.SHR: "bit!shr", token.AND_NOT: "bit!andnot"}[op]
+			w.preAdd("bitop:"+name, fmt.Sprintf("(declare-fun %s (Int Int) Int)", name))
+			w.assumption("bit operations (&, |, ^, <<, >>, &^) are uninterpreted")
+			return mk(SInt, name, a, b)
+		}
 	}
 	unsupported("binary operator %s", op)
 	return Term{}
